@@ -11,6 +11,7 @@ import Dawgs.Model.C01Chain
 import Dawgs.Model.C01Count
 import Dawgs.Model.C01Limit
 import Dawgs.Model.C01With
+import Dawgs.Model.C01Order
 import Dawgs.Model.C03Bind
 import Dawgs.Model.SqlSchema
 /-! C01 semantic-search driver (suite `c01sem`, also used by C02).
@@ -256,6 +257,24 @@ def compareCut (km : KindMap) (base : Cy.Query) (k : Nat) (s : Stmt) (g : Graph)
       if sr.length == min k cr.length && subBag sr cr then .agree
       else .differ [] s!"graph={renderGraph g} limit={k} base-cy={(renderRows cr).replace " " "_"} sql={(renderRows sr).replace " " "_"}"
 
+/-- stage S1o (ORDER BY on a property): the prediction of `tr_sound_S1o` — on a graph satisfying `keyOKb` the statement's rows are, in the same
+order, the rows the reference semantics returns (no deviation switch); a query the reference refuses (SKIP / LIMIT cutting inside ties) is not compared -/
+def compareOrd (km : KindMap) (q : Cy.Query) (s : Stmt) (g : Graph) : Outcome :=
+  match Cy.eval Cy.Quirks.none g q with
+  | .error w => .unmodelledCy w
+  | .ok (_, crows) =>
+    let cr := crows.map (fun r => r.map (Cy.CVal.toR g km))
+    match Sql.eval (encode km g) s [] with
+    | .error e =>
+      let (c, w) := errClass e
+      if c == "unmodelled" then .unmodelledSql w
+      else if c == "runtime" then .sqlRuntime s!"{w.replace " " "_"} graph={renderGraph g} cy={(renderRows cr).replace " " "_"}"
+      else .sqlOther c s!"{w.replace " " "_"} graph={renderGraph g}"
+    | .ok t =>
+      let sr := t.rows.map (fun r => r.map valToR)
+      if sr.length == cr.length && (sr.zip cr).all (fun p => rowEq p.1 p.2) then .agree
+      else .differ [] s!"graph={renderGraph g} cy={(renderRows cr).replace " " "_"} sql={(renderRows sr).replace " " "_"}"
+
 def kindMapOf : Sexp → Option KindMap
   | .list (.atom "list" :: xs) => xs.mapM (fun x => match x with
       | .list [.str k, .atom n] => n.toNat?.map (fun i => (k, i))
@@ -499,10 +518,15 @@ def tieStep (_ : Unit) (ts : List String) : Unit × String :=
       | some km, .ok q, .ok s =>
         -- which stage does the parsed query belong to, and is its Cypher reading the parsed query itself?
         let lim := C01.ofCyLimit2 q
+        let ord := C01.ofCyOrder q
         let stage : Option (String × Bool × Bool) := match lim with
           | some l => some ("S2L", l.toCy == q, l.base.wf)
+          | none => match ord with
+          | some o => some ("S1o", o.toCy == q, o.wf)
           | none => match C01.ofCyWith q with
           | some w => some ("S3a", w.toCy == q, w.wf)
+          | none => match C01.ofCyWithHop q with
+          | some w => some ("S3b", w.toCy == q, w.wf)
           | none => match C01.ofCy q with
           | some s1 => some ("S1", s1.toCy == q, s1.wf)
           | none => match C01.ofCy2 q with
@@ -521,7 +545,7 @@ def tieStep (_ : Unit) (ts : List String) : Unit × String :=
           if !wf then ((), "outside-fragment not-well-formed-for-" ++ stg) else
           -- the hop's join order is the translator's choice (selectivity heuristic over its Go tree): the real statement must be the
           -- model statement for ONE of the two orders; `dir` records whether it is the order the model's approximation picks
-          let cands := [C01.tr7F (fun _ => false) (fun _ => false) (fun _ => false) true true true km q, C01.tr7F (fun _ => true) (fun _ => true) (fun _ => true) true true true km q].filterMap id
+          let cands := [C01.tr8F (fun _ => false) (fun _ => false) (fun _ => false) true true true km q, C01.tr8F (fun _ => true) (fun _ => true) (fun _ => true) true true true km q].filterMap id
           match cands with
           | [] => ((), "tie-differs model-translator-rejects-a-translated-query")
           | (st0, ps) :: _ =>
@@ -537,18 +561,22 @@ def tieStep (_ : Unit) (ts : List String) : Unit × String :=
                 let graphs := graphsFor gseed nrandom exN exE
                 let ordered := !q.ret.orderBy.isEmpty
                 -- the hypothesis of the stage's theorem: `GraphOK` for S1, `GraphOK2` for S2b
-                let hypB := fun (g : Graph) => if stg == "S1" || stg == "S1c" || stg == "S3a" then C01.graphOKb km g else C01.graphOK2b km g
+                let hypB := fun (g : Graph) =>
+                  if stg == "S1o" then C01.graphOKb km g && (match ord with | some o => C01.keyOKb g o.key | none => false)
+                  else if stg == "S1" || stg == "S1c" || stg == "S3a" then C01.graphOKb km g else C01.graphOK2b km g
                 let inHyp := graphs.filter hypB
                 let outHyp := graphs.filter (fun g => !hypB g)
                 -- S2L: the reference semantics refuses a LIMIT that has to choose; the theorem speaks about the base query's rows
                 let cmp := match lim with
                   | some l => compareCut km l.base.toCy l.k s
-                  | none => compareOn km [] q s ordered []
+                  | none => if stg == "S1o" then compareOrd km q s else compareOn km [] q s ordered []
                 let outsIn := inHyp.map cmp
                 let outsOut := outHyp.map cmp
                 let isAgree := fun (o : Outcome) => match o with | .agree => true | _ => false
                 let isUsql := fun (o : Outcome) => match o with | .unmodelledSql _ => true | _ => false
-                let bad := outsIn.filter (fun o => !(isAgree o || isUsql o))
+                -- S1o: the reference refuses a SKIP / LIMIT that cuts inside a block of equal sort keys; the theorem claims nothing there
+                let isTieRefusal := fun (o : Outcome) => match o with | .unmodelledCy w => stg == "S1o" && w.startsWith "nondeterministic-" | _ => false
+                let bad := outsIn.filter (fun o => !(isAgree o || isUsql o || isTieRefusal o))
                 let counts := s!"stage={stg} dir={dir} graphs={graphs.length} hyp={inHyp.length} agree={(outsIn.filter isAgree).length} usql={(outsIn.filter isUsql).length} outside-hyp={outHyp.length} outside-hyp-agree={(outsOut.filter isAgree).length}"
                 if bad.isEmpty then ((), s!"tie-ok {counts}")
                 else ((), s!"tie-proof-mismatch {counts} {summarize bad}")
